@@ -3,6 +3,7 @@ package c04
 
 import (
 	"fmt"
+	"strings"
 	"testing"
 	"time"
 
@@ -27,6 +28,12 @@ func TestC04Acks(t *testing.T) {
 			return r
 		}
 		if out == nil {
+			if strings.HasPrefix(why, "LOCKLEAK:") {
+				site := strings.SplitN(strings.TrimPrefix(why, "LOCKLEAK:"), "\n", 2)[0]
+				r := vrun.Violation("ReadDataPoints never returns an item the broker sent: library goroutines are parked on a stream lock that is never released", "read-blocked-by-leaked-lock:"+site, map[string]any{"goroutine": why})
+				r.Desc = s
+				return r
+			}
 			r := vrun.Inconcl(why)
 			r.Desc = s
 			return r
